@@ -236,8 +236,13 @@ def inplace_walk_case(args):
             elif a_long and forced is None and rng.random() < 0.5:
                 forced = (wr, wn)
         if live and rng.random() < 0.7:
-            wn = rng.choice(live)
-            wr = rng.choice(core.RULE_NAMES)
+            if options and rng.random() < 0.5:
+                # a pair at which the rule currently applies (its answer is the one that matters later)
+                wr, wi = rng.choice(options)
+                wn = live[wi] if wi < len(live) else rng.choice(live)
+            else:
+                wn = rng.choice(live)
+                wr = rng.choice(core.RULE_NAMES)
             try:
                 core.rule_instance(wr).can_apply_to(wn)   # the first question (its answer is checked by the sweep above)
                 watched.append((wr, wn))
